@@ -4,8 +4,21 @@
   of scheduler events), any number of readers, any batches (contiguous, gapped, out of order).
 -/
 import GoHeader.Lemmas.Conc
+import GoHeader.Store.HeightSub
 namespace GoHeader.C12
 open GoHeader GoHeader.Conc
+
+/-- a store WITHOUT a head (fresh, or emptied by a whole-chain DeleteRange) receives its first batch a..b
+    (`Store.HeightSub`: Init(a), Notify(a..b), SetHeight(b)): whoever was parked, on whatever heights, nobody is left
+    waiting for a height at or below b - in particular not the waiter of the first height itself, which Init does not release -/
+theorem c12_first_batch_no_lost_wakeup (s : HeightSub.St) (a b : Nat) (hab : a ≤ b) :
+    ∀ x ∈ (HeightSub.firstBatch s a b).subs, b < x :=
+  HeightSub.firstBatch_releases s a b hab
+
+/-- ... and a reader arriving afterwards for a height of the batch is not parked at all -/
+theorem c12_first_batch_then_elapsed (s : HeightSub.St) (a b x : Nat) (hab : a ≤ b) (hx : x ≤ b) :
+    (HeightSub.register (HeightSub.firstBatch s a b) x).2 = false :=
+  HeightSub.firstBatch_elapsed s a b x hab hx
 
 /-- No lost wake-up: in every reachable state in which the flusher has worked off its batch, no
     reader is parked on a height that is stored — whether or not it is contiguous with Head, and
